@@ -38,7 +38,7 @@ def tail_shapes(chk):
 
 def run(chk):
     shapes = tail_shapes(chk)
-    parts = ['valid'] + runmon.parts(chk.tier) + ['tail:%d' % i for i in range(len(shapes))] + ['ping']
+    parts = ['valid'] + runmon.parts(chk.tier) + ['tail:%d' % i for i in range(len(shapes))] + ['ping', 'builder']
     if not chk.parallel(os.path.abspath(__file__), parts, post_merge=runmon.post_merge):
         if chk.want('valid'):
             app_valid(chk)
@@ -48,7 +48,12 @@ def run(chk):
             tailmon.monitor_tail(chk, [shapes[int(chk.part.split(':')[1])]] if (chk.part or '').startswith('tail:') else shapes)
         if chk.want('ping'):
             sutmon.monitor_ping(chk, 1, 1)
-    keep = ('app-validity', 'invalid-apps-never-start', 'check-needs-consent', 'reboot-needs-consent', 'install-gated', 'ping-bookkeeping', 'run-explored')
+        if chk.want('builder'):
+            # the guarantee side of "every request carries exactly the policy's parameters": what the real
+            # RequestBuilder puts on the wire for the parameters it was constructed with
+            import c15
+            c15.builder_logic(chk, 2, 1, name='builder-uses-given-params')
+    keep = ('app-validity', 'invalid-apps-never-start', 'check-needs-consent', 'reboot-needs-consent', 'install-gated', 'ping-bookkeeping', 'run-explored', 'builder-uses-given-params')
     chk.obligations = [o for o in chk.obligations if o.name in keep or o.name.startswith('part:')]
     chk.bounds.update({'run loop iterations': 2, 'control requests': '1 (quick) / 2 (thorough)', 'pending polls per future': 1,
                        'tail shapes (apps, response apps, results)': [list(s) for s in tail_shapes(chk)]})
@@ -62,8 +67,11 @@ if __name__ == '__main__':
     chk = Check('C05')
     try:
         run(chk)
-    except Inconclusive as e:
+    except Exception as e:          # nothing the engine cannot digest may look like a verdict: exit 2
+        import traceback
         o = chk.ob('engine', 'executor could not interpret the code')
         o.status = 'inconclusive'
-        o.detail = str(e)
+        o.detail = ('%s: %s' % (type(e).__name__, e)) if not isinstance(e, Inconclusive) else str(e)
+        if not isinstance(e, Inconclusive):
+            o.detail += ' | ' + ' <- '.join(l.strip() for l in traceback.format_exc().strip().split('\n')[-7:-1:2])
     sys.exit(chk.finish())
